@@ -101,10 +101,10 @@ def _analyses():
             "kind decisions never made by dtype == <Python scalar type> (A4.dtypecmp), the shape/dtype template of a rebuilt cotangent taken from the differentiated argument (A4.template), zeros of the argument's / output's space on independent paths (A13.zero), one Box and one VSpace per differentiable type (A1.types), container layout (A2.layout).",
         ),
         "C06": (
-            [kt.trace_fn, kt.wrapper, kt.notrace_wrapper, kt.find_top, kt.new_trace, km.wrap_namespace, ka.arraybox_table, a1.methods, ka.operators, ka.wrapper_signatures, ka.option_packs, ka.container_boxes, km.axis_normalisation_consistency, kc.inplace_sites],
+            [kt.trace_fn, kt.wrapper, kt.notrace_wrapper, kt.find_top, kt.new_trace, km.wrap_namespace, ka.arraybox_table, a1.methods, ka.operators, ka.wrapper_signatures, ka.option_packs, ka.container_boxes, ka.type_queries, km.axis_normalisation_consistency, kc.inplace_sites],
             "Value transparency: trace() returns the unboxed value; the wrapper calls the raw function unchanged on plain inputs and unboxes exactly one level; ArrayBox's "
             "operator/method/property table follows the Python data model (A14); operators return primal/aux untouched (A15); re-implemented wrappers keep NumPy's optional "
-            "parameter names, positions and defaults (A6.wrapsig) and apply a forwarded option pack exactly once, never per nested element (A6.optpack); container boxes answer structure queries (len, iteration order, membership) exactly as the raw container does (A14.containers); no in-place write to a parameter (A9.inplace).",
+            "parameter names, positions and defaults (A6.wrapsig) and apply a forwarded option pack exactly once, never per nested element (A6.optpack); container boxes answer structure queries (len, iteration order, membership) exactly as the raw container does (A14.containers); the isinstance / type replacements ask the builtin about the fully unboxed value (A14.typeq); no in-place write to a parameter (A9.inplace).",
         ),
         "C07": (
             [a8_taint.traceable, a1.helpers, kc.closure_reuse, a5_factor.agree, a5_linear.closures_linear, kt.trace_fn, kt.wrapper, kt.notrace_wrapper, kt.find_top, kt.new_trace],
@@ -142,9 +142,9 @@ def _analyses():
             "compares type and structure fields, ComplexArrayVSpace overrides (A4.vspace), purity and mut_add(None, x) freshness (A9.pure).",
         ),
         "C14": (
-            [kc.zero_paths, kc.closure_reuse, a1.nograd, a1.sym, a1.none_rules, a1.methods, ka.arraybox_table, kt.wrapper, kt.notrace_wrapper, kt.trace_fn, a3.vjp_locally_constant, kc.programmatic_registrations, a7_axis.zero_shapes],
+            [kc.zero_paths, kc.closure_reuse, a1.nograd, a1.sym, a1.none_rules, a1.methods, ka.arraybox_table, kt.wrapper, kt.notrace_wrapper, kt.trace_fn, a3.vjp_locally_constant, kc.programmatic_registrations, a7_axis.zero_shapes, kc.purity],
             "Exact zeros: independent outputs give zeros of the right space and never None (A13.zero); everything declared non-differentiable is locally constant (A1.nograd/none/methods, "
-            "facts about NumPy) for both node types (A1.sym); comparisons map to untraced functions, __bool__/shape/len read the raw value (A14); the notrace branch returns plain values; a written-out rule for a locally constant argument has that argument's shape support (A3.vjp); a zero that a rule builds itself does not get its shape from axis arithmetic that changes meaning for a negative axis (A7.zero).",
+            "facts about NumPy) for both node types (A1.sym); comparisons map to untraced functions, __bool__/shape/len read the raw value (A14); the notrace branch returns plain values; a written-out rule for a locally constant argument has that argument's shape support (A3.vjp); a zero that a rule builds itself does not get its shape from axis arithmetic that changes meaning for a negative axis (A7.zero); the zeros / ones / basis vectors of a space are built in the space's own dtype, never promoted with a fixed type (A9.pure precision clause: a float32 argument gets a float32 zero).",
         ),
         "C15": (
             [kc.raise_discipline, ka.guard_dominance, ka.option_domains, ka.sibling_guards, ka.raw_calls_in_wrappers, ka.arraybox_table, ka.operators, a1.nograd, a1.none_rules, _namespace_classes, km.wrap_namespace, km.guard_functions, a16_perm.norm_support, a16_perm.permutations_rule, a2.ignored_options, ka.rank_guards],
